@@ -434,6 +434,16 @@ func parseRule(node *yaml.Node, offsetLine, offsetColumn int, contentLines []str
 		}, false
 	}
 
+	if recordPart != nil && strings.ContainsAny(recordPart.Value, "{}") {
+		return Rule{
+			Lines: lines,
+			Error: ParseError{
+				Line: recordPart.Pos.Lines().First,
+				Err:  fmt.Errorf("braces present in the recording rule name; should it be in expr?: %s", recordPart.Value),
+			},
+		}, false
+	}
+
 	if (recordPart != nil || alertPart != nil) && labelsPart != nil {
 		for _, lab := range labelsPart.Items {
 			if !model.LabelName(lab.Key.Value).IsValid() || lab.Key.Value == model.MetricNameLabel {
